@@ -19,7 +19,7 @@ RULE = ("Hypothesis-generated hierarchies of 1-4 classes (chains, diamonds, mixi
         "on an instance of the most derived class; oracle = independent dependency resolver + exactly-once counting per "
         "operation (and exactly one call at construction per on_init method), body that ran = nearest definition, and "
         "method_dependencies(f) == the resolver's set. Non-trivial = the hierarchy contains an override or a method-name "
-        "dependency, or an op changes >=2 elements of one method's dependency set at once; distinct = case hash.")
+        "dependency, or an op changes >=2 elements of one method's dependency set at once; distinct = case hash. Round 5: a fan-out side scenario - a dependent method assigns, one after the other, 1-3 dependencies of another dependent method, next to a third (possibly queued) method of the same trigger, by attribute / update / batch: once per assignment, once in all when the assigning method is queued.")
 ASSUMPTIONS = [
     "a method named as a dependency is never overridden undecorated (an undecorated method 'depends on everything')",
     "values assigned inside a batch are always fresh, so every set inside it is a change",
